@@ -21,5 +21,6 @@ def main (args : List String) : IO UInt32 := do
   | ["dispatch"] => lineLoop dispLine; return 0
   | ["chai"] => lineLoop (fun l => let r := (chaiLine l).replace "\n" " "; "model=" ++ r ++ "\tspec=" ++ r); return 0
   | ["chai-print"] => lineLoop (fun l => (chaiLine ("print " ++ l)).replace "\n" " "); return 0
+  | ["chai-tree"] => lineLoop (fun l => (chaiLine ("tree " ++ l)).replace "\n" " "); return 0
   | ["arith-abi"] => (abiLines.forM IO.println); return 0
   | _ => IO.eprintln "usage: chaimodel <mode>"; return 2
